@@ -20,7 +20,7 @@ INVARIANTS = ["C41_Uncommitted", "C41_NotDispatched", "C01_User", "C06_Batch", "
 PROPERTIES = []
 QUICK = ['grp2', 'upd2', 'upd3']
 THOROUGH = ['grp2', 'upd2', 'clean', 'upd3']
-FINDINGS = [("uncchild", "upd2", ["C41_Uncommitted"]), ("ooc", "ooc2", ["C41_NotDispatched"])]
+FINDINGS = [("ooc", "ooc2", ["C41_NotDispatched"])]
 
 
 def run(ctx):
